@@ -51,6 +51,15 @@ func (v *FHIRPathVisitor) clone() *FHIRPathVisitor {
 	}
 }
 
+// unquoteIdentifier removes the delimiters of a delimited identifier (`div`)
+// or of a string used as a name (%'my variable'); other text is returned as is.
+func unquoteIdentifier(text string) string {
+	if len(text) >= 2 && (text[0] == '`' || text[0] == '\'') && text[len(text)-1] == text[0] {
+		return text[1 : len(text)-1]
+	}
+	return text
+}
+
 func (v *FHIRPathVisitor) transformedVisitResult(resultExpr expr.Expression) *VisitResult {
 	if v.Transform == nil {
 		v.Transform = IdentityTransform
@@ -306,7 +315,7 @@ func (v *FHIRPathVisitor) VisitLiteralTerm(ctx *grammar.LiteralTermContext) inte
 
 func (v *FHIRPathVisitor) VisitExternalConstantTerm(ctx *grammar.ExternalConstantTermContext) interface{} {
 	ident := ctx.ExternalConstant().GetText()
-	ident = strings.TrimPrefix(ident, "%")
+	ident = unquoteIdentifier(strings.TrimPrefix(ident, "%"))
 	return v.transformedVisitResult(&expr.ExternalConstantExpression{Identifier: ident})
 }
 
@@ -421,7 +430,7 @@ func (v *FHIRPathVisitor) VisitExternalConstant(ctx *grammar.ExternalConstantCon
 // VisitMemberInvocation checks to see if the identifier corresponds to a resource type and is the
 // root of the expression. If so, it will return a TypeExpression. Otherwise, it returns a FieldExpression.
 func (v *FHIRPathVisitor) VisitMemberInvocation(ctx *grammar.MemberInvocationContext) interface{} {
-	identifier := ctx.GetText()
+	identifier := unquoteIdentifier(ctx.GetText())
 	var expression expr.Expression
 
 	if resource.IsType(identifier) && !v.visitedRoot {
@@ -451,7 +460,7 @@ func (v *FHIRPathVisitor) VisitTotalInvocation(ctx *grammar.TotalInvocationConte
 }
 
 func (v *FHIRPathVisitor) VisitFunction(ctx *grammar.FunctionContext) interface{} {
-	ident := ctx.Identifier().GetText()
+	ident := unquoteIdentifier(ctx.Identifier().GetText())
 	fn, ok := v.Functions[ident]
 	if !ok {
 		return &VisitResult{nil, fmt.Errorf("%w: %s", errUnresolvedFunction, ident)}
@@ -508,7 +517,7 @@ func (v *FHIRPathVisitor) VisitTypeSpecifier(ctx *grammar.TypeSpecifierContext) 
 }
 
 func (v *FHIRPathVisitor) VisitQualifiedIdentifier(ctx *grammar.QualifiedIdentifierContext) interface{} {
-	return slices.Map(ctx.AllIdentifier(), func(i grammar.IIdentifierContext) string { return i.GetText() })
+	return slices.Map(ctx.AllIdentifier(), func(i grammar.IIdentifierContext) string { return unquoteIdentifier(i.GetText()) })
 }
 
 func (v *FHIRPathVisitor) VisitIdentifier(ctx *grammar.IdentifierContext) interface{} {
